@@ -56,6 +56,13 @@ def poly(t, atom=None, depth=0):
             return _padd(poly(t.a[1][0], atom, depth + 1), poly(t.a[1][1], atom, depth + 1), -1)
         if n in _MUL:
             return _pmul_keys(poly(t.a[1][0], atom, depth + 1), poly(t.a[1][1], atom, depth + 1))
+    if t.op == "call" and len(t.a[1]) == 1 and B.cname(t) in ("Iterator::sum", "Sum::sum"):
+        el = _array_elems(t.a[1][0])
+        if el is not None:
+            acc = {}
+            for e in el:
+                acc = _padd(acc, poly(e, atom, depth + 1))
+            return acc
     if t.op == "call" and len(t.a[1]) == 1:
         n = B.cname(t)
         if n in _NEG:
@@ -82,6 +89,21 @@ def poly(t, atom=None, depth=0):
     if t.op == "named" and str(t.a[0]).endswith(("Field::ONE", "::ONE")):
         return {(): 1}
     return {(_key(t, atom),): 1}
+
+
+_ITER_WRAPPERS = ("IntoIterator::into_iter", "slice::<impl [T]>::iter", "Iterator::copied", "Iterator::cloned", "Iterator::by_ref", "array::<impl [T; N]>::iter", "array::<impl [T; N]>::into_iter")
+
+
+def _array_elems(t):
+    """Elements of a literal array that is iterated as a whole (`[a, b, c].into_iter()`, `.iter().copied()`), else None."""
+    t = B.peel(t)
+    k = 0
+    while t.op == "call" and len(t.a[1]) == 1 and B.cname(t) in _ITER_WRAPPERS and k < 6:
+        t = B.peel(t.a[1][0])
+        k += 1
+    if t.op == "agg" and t.a[0][0] == "array":
+        return list(t.a[1])
+    return None
 
 
 def _key(t, atom):
@@ -136,10 +158,34 @@ def pairs_of(t):
     from .terms import subterms
 
     t = B.peel(t)
+    v = _pushed_elems(t)
+    if v is not None:
+        if v and all(B.peel(e).op == "agg" and B.peel(e).a[0][0] == "tuple" and len(B.peel(e).a[1]) == 2 for e in v):
+            return [tuple(B.peel(e).a[1]) for e in v]
+        return None
     arrs = [s for s in set([t]) | set(subterms(t)) if s.op == "agg" and s.a[0][0] == "array" and s.a[1] and all(B.peel(e).op == "agg" and B.peel(e).a[0][0] == "tuple" and len(B.peel(e).a[1]) == 2 for e in s.a[1])]
     if len(arrs) != 1:
         return None
     return [tuple(B.peel(e).a[1]) for e in arrs[0].a[1]]
+
+
+def _pushed_elems(t):
+    """Elements of a Vec built by `Vec::new()` / `with_capacity(n)` and a straight sequence of `push`es, handed over whole
+    (`&v`, `v.as_slice()`, `&v[..]`), else None."""
+    t = B.peel(t)
+    k = 0
+    while t.op == "call" and len(t.a[1]) >= 1 and B.cname(t) in ("Vec::<T, A>::as_slice", "Deref::deref", "AsRef::as_ref", "Borrow::borrow") and k < 4:
+        t = B.peel(t.a[1][0])
+        k += 1
+    out = []
+    while t.op == "mutcall" and B.cname(t) == "Vec::<T, A>::push" and t.a[1] == 0 and len(t.a[2]) == 2:
+        out.append(t.a[2][1])
+        t = B.peel(t.a[2][0])
+    if not out:
+        return None
+    if t.op == "call" and B.cname(t) in ("Vec::<T>::new", "Vec::<T>::with_capacity", "Vec::<T, A>::new", "Vec::<T, A>::with_capacity"):
+        return list(reversed(out))
+    return None
 
 
 def bilinear(pairs, atom=None):
